@@ -64,6 +64,7 @@ fn walk_vars(e: &E, mp: &[String], f: &mut dyn FnMut(&E)) {
             walk_vars(a, mp, f);
             walk_vars(b, mp, f);
         }
+        E::ApplyMod(_, a) => walk_vars(a, mp, f),
     }
 }
 
@@ -113,6 +114,7 @@ fn replace_kth(e: &E, mp: &[String], k: &mut i64) -> E {
             let b2 = r(b, k);
             E::Apply(Box::new(a2), Box::new(b2))
         }
+        E::ApplyMod(p, a) => E::ApplyMod(p.clone(), Box::new(r(a, k))),
     }
 }
 
